@@ -188,14 +188,26 @@ def scale_of(B):
     return s
 
 
-def gen_gqr_kwargs(rng, B, feasible=None):
+def gen_gqr_kwargs(rng, B, feasible=None, overfill=False):
     """Random GQR keyword set on basis B (n×m). `feasible`: True → feasible (N,s) only,
-    False → arbitrary but inside the code's own domain, None → mix."""
+    False → arbitrary but inside the code's own domain, None → mix.  `overfill`: the region holds several of the
+    unconstrained top-N sensors and the allowance is smaller (some must be pushed out) – feasible."""
     from pysensors.optimizers import QR
     n, m = B.shape
     k = min(n, m)
     A = np.array(QR().fit(B.copy()).get_sensors()).copy()
     opt = rng.choice(["max_n", "exact_n", "predetermined"])
+    if overfill and k >= 3 and n >= 5:
+        N = rng.randint(3, k)
+        t = rng.randint(2, min(N, n - N + 1, 4)) if min(N, n - N + 1, 4) >= 2 else 0
+        if t:
+            top = rng.sample(A[:N].tolist(), t)
+            extra = [c for c in A[N:].tolist() if rng.random() < 0.3]
+            L = sorted(set(top) | set(extra))
+            s_ = rng.randint(0, t - 1)
+            if N - s_ <= n - len(L):
+                return {"idx_constrained": np.array(L, dtype=int), "n_sensors": N, "n_const_sensors": s_,
+                        "all_sensors": A, "constraint_option": opt}
     size = rng.randint(0, n)
     L = sorted(rng.sample(range(n), size))
     N = rng.randint(1, k)
